@@ -1083,6 +1083,12 @@ func (r *realm) testamentAdd(msg *wamp.Invocation) wamp.Message {
 	}
 
 	r.actionChan <- func() {
+		// The caller may have left the realm while this call was in flight.
+		// Its testaments were already taken care of, and nothing would ever
+		// remove or publish a testament stored for it now.
+		if _, ok := r.clients[caller]; !ok {
+			return
+		}
 		// A map returns the "zero value" if a key doesn't exist, so there are
 		// nils for the arrays which are equal to empty arrays
 		testaments := r.testaments[caller]
